@@ -3,7 +3,7 @@
    Strings are lists of code points; quote / quote_nonascii / hostportjoin and the safe sets are the code translated from
    aiocoap/util (Gen/uri_kernels.v); set_request_uri / get_request_uri / urlsplit / unquote are Model/C16.v.
    [ip] is ipaddress.ip_address (trusted stdlib), a parameter of the model: the theorems hold for every such function. *)
-From Verif Require Import Lib.Py Lib.Tactics Model.C16Str Gen.uri_kernels Model.C16 Proofs.C16Str Proofs.C16.
+From Verif Require Import Lib.Py Lib.Tactics Model.C16Str Gen.uri_kernels Model.C16 Proofs.C16Str Proofs.C16 Proofs.C16Uri.
 Open Scope Z_scope.
 
 (* ---- percent-coding: for EVERY string and both safe sets, unquote (quote s) = s; quoting fails only on lone surrogates *)
@@ -39,23 +39,26 @@ Proof. exact query_roundtrip. Qed.
 Print Assumptions C16_query_roundtrip.
 (* ... and the excluded option sets are exactly where distinct resources collapse *)
 Theorem C16_degenerate_collapses :
-  get_request_uri (mk_opts coap [104] None [[]] []) = get_request_uri (mk_opts coap [104] None [] []) /\
-  get_request_uri (mk_opts coap [104] None [] [[]]) = get_request_uri (mk_opts coap [104] None [] []).
+  get_request_uri no_ip (mk_opts coap [104] None [[]] []) = get_request_uri no_ip (mk_opts coap [104] None [] []) /\
+  get_request_uri no_ip (mk_opts coap [104] None [] [[]]) = get_request_uri no_ip (mk_opts coap [104] None [] []).
 Proof. exact degenerate_path_collapses. Qed.
 Print Assumptions C16_degenerate_collapses.
 
-(* ---- options -> URI -> options (6.5 then 6.4), non-degenerate option sets with a reg-name Uri-Host *)
+(* ---- options -> URI -> options (6.5 then 6.4). Non-degenerate option set with Uri-Host: Uri-Path <> [""], Uri-Query <> [""],
+   all strings encodable; Uri-Host non-empty, without upper-case ASCII letters, not the text of an IP address, not passing the
+   IPv4-literal test; effective port in 0..65535. Uri-Host may contain reserved characters, "%" and non-ASCII characters. *)
 Theorem C16_options_uri_options_name : forall ip (m : request_opts) h h0 p0,
   existsb (beqb (r_scheme m)) coap_schemes = true ->
   o_proxy_uri m = None -> o_proxy_scheme m = None ->
-  o_uri_host m = Some h -> regular_host h = true -> is_ipv4_literal h = Ok false ->
+  o_uri_host m = Some h -> h <> [] -> valid_str h = true -> Forall not_upper h ->
+  ip (strip_brackets h) = IpBad -> is_ipv4_literal h = Ok false ->
   hostportsplit (r_hostinfo m) = Ok (h0, p0) ->
   let p := match o_uri_port m with Some n => if n =? 0 then p0 else Some n | None => p0 end in
   port_ok p ->
   o_uri_path m <> [[]] -> o_uri_query m <> [[]] ->
   forallb valid_str (o_uri_path m) = true -> forallb valid_str (o_uri_query m) = true ->
-  exists u, get_request_uri m = Ok u /\
-            set_request_uri ip u true = Ok (DRequest (r_scheme m) (h ++ port_text p) (Some h) (o_uri_path m) (o_uri_query m)).
+  exists u e, get_request_uri ip m = Ok u /\ quote quote_for_host_chars h = Ok e /\
+            set_request_uri ip u true = Ok (DRequest (r_scheme m) (e ++ port_text p) (Some h) (o_uri_path m) (o_uri_query m)).
 Proof. exact options_uri_options_name. Qed.
 Print Assumptions C16_options_uri_options_name.
 (* authority taken from the remote (no Uri-Host / Uri-Port): an IPv4 literal is not sent as Uri-Host, a name is *)
@@ -65,29 +68,79 @@ Theorem C16_options_uri_options_hostinfo : forall ip (m : request_opts) h p lit,
   r_hostinfo m = h ++ port_text p -> regular_host h = true -> is_ipv4_literal h = Ok lit -> port_ok p ->
   o_uri_path m <> [[]] -> o_uri_query m <> [[]] ->
   forallb valid_str (o_uri_path m) = true -> forallb valid_str (o_uri_query m) = true ->
-  exists u, get_request_uri m = Ok u /\
+  exists u, get_request_uri ip m = Ok u /\
             set_request_uri ip u true =
               Ok (DRequest (r_scheme m) (r_hostinfo m) (if lit then None else Some h) (o_uri_path m) (o_uri_query m)).
 Proof. exact options_uri_options_hostinfo. Qed.
 Print Assumptions C16_options_uri_options_hostinfo.
-(* decomposed form -> URI -> the same decomposed form: the composed URI is a normal form.
-   PARTIAL (name ..._partial): stated for decomposed forms with a regular authority (lower-case ASCII reg-name [:port]); not proved:
-   that EVERY accepted URI decomposes into such a form or into a literal form (bracketed IPv6 authorities, names with
-   percent-escapes and non-ASCII Uri-Host are covered by the correspondence run and the oracle only). *)
-Theorem C16_uri_options_uri_normal_partial : forall ip scheme h p path query,
-  existsb (beqb scheme) coap_schemes = true -> regular_host h = true -> is_ipv4_literal h = Ok false -> port_ok p ->
-  path <> [[]] -> query <> [[]] -> forallb valid_str path = true -> forallb valid_str query = true ->
-  let d := DRequest scheme (h ++ port_text p) (Some h) path query in
-  exists u, get_request_uri (opts_of d) = Ok u /\ set_request_uri ip u true = Ok d.
-Proof. exact uri_options_uri_normal. Qed.
-Print Assumptions C16_uri_options_uri_normal_partial.
-(* the full statement without the regular-host hypothesis is FALSE of the code (OPEN finding C16:compose-host-not-escaped): coap://a%2Fb/ *)
-Theorem C16_compose_decompose_refuted :
+(* bracketed IPv6 literal with zone identifier as the remote (with or without Uri-Port): never a Uri-Host, the literal stays.
+   [ip6_text_ok ip t]: t is a text ipaddress prints (fixed point of ip, contains ":", ASCII, lower-case up to the zone, none of
+   "@[]/?#" or tab/CR/LF, does not start with "v") *)
+Theorem C16_options_uri_options_ip6 : forall ip (m : request_opts) t p0,
+  existsb (beqb (r_scheme m)) coap_schemes = true ->
+  o_proxy_uri m = None -> o_proxy_scheme m = None -> o_uri_host m = None ->
+  r_hostinfo m = 91 :: t ++ 93 :: port_text p0 -> ip6_text_ok ip t -> port_ok p0 ->
+  let p := match o_uri_port m with Some n => if n =? 0 then p0 else Some n | None => p0 end in
+  port_ok p ->
+  o_uri_path m <> [[]] -> o_uri_query m <> [[]] ->
+  forallb valid_str (o_uri_path m) = true -> forallb valid_str (o_uri_query m) = true ->
+  exists u, get_request_uri ip m = Ok u /\
+            set_request_uri ip u true = Ok (DRequest (r_scheme m) (91 :: t ++ 93 :: port_text p) None (o_uri_path m) (o_uri_query m)).
+Proof. exact options_uri_options_ip6. Qed.
+Print Assumptions C16_options_uri_options_ip6.
+(* distinct resources never collapse: two non-degenerate option sets composing to the same URI agree on scheme, Uri-Host,
+   effective port, Uri-Path and Uri-Query *)
+Theorem C16_compose_injective : forall ip (m1 m2 : request_opts) h1 h2 a1 b1 a2 b2 u,
+  (forall (m : request_opts) h h0 p0, m = m1 /\ h = h1 /\ h0 = a1 /\ p0 = b1 \/ m = m2 /\ h = h2 /\ h0 = a2 /\ p0 = b2 ->
+     existsb (beqb (r_scheme m)) coap_schemes = true /\ o_proxy_uri m = None /\ o_proxy_scheme m = None /\
+     o_uri_host m = Some h /\ h <> [] /\ valid_str h = true /\ Forall not_upper h /\
+     ip (strip_brackets h) = IpBad /\ is_ipv4_literal h = Ok false /\ hostportsplit (r_hostinfo m) = Ok (h0, p0) /\
+     port_ok (match o_uri_port m with Some n => if n =? 0 then p0 else Some n | None => p0 end) /\
+     o_uri_path m <> [[]] /\ o_uri_query m <> [[]] /\
+     forallb valid_str (o_uri_path m) = true /\ forallb valid_str (o_uri_query m) = true) ->
+  get_request_uri ip m1 = Ok u -> get_request_uri ip m2 = Ok u ->
+  r_scheme m1 = r_scheme m2 /\ h1 = h2 /\ o_uri_path m1 = o_uri_path m2 /\ o_uri_query m1 = o_uri_query m2 /\
+  match o_uri_port m1 with Some n => if n =? 0 then b1 else Some n | None => b1 end =
+  match o_uri_port m2 with Some n => if n =? 0 then b2 else Some n | None => b2 end.
+Proof. exact compose_injective. Qed.
+Print Assumptions C16_compose_injective.
+(* ---- URI -> options -> URI -> options (6.4, 6.5, 6.4) for EVERY accepted URI that is a string of Unicode scalar values:
+   the decomposed options are non-degenerate; composing and decomposing again gives the same scheme / Uri-Host / Uri-Path /
+   Uri-Query with the authority in normal form.
+   * Uri-Host present — any characters, percent-escaped, reserved or non-ASCII: unconditional, except the NAMED RESIDUE of a
+     decoded host that is itself the text of an IP address or passes the IPv4-literal test (coap://1%2E2.3.4/, coap://%3A%3A1/),
+     where 6.5 legitimately composes a literal (kept as the two hypotheses of the inner implication).
+   * no Uri-Host: fixed point for a bracketed IPv6 remote [t][:port] (t a text ipaddress prints: ip6_text_ok) and for an IPv4
+     literal remote host[:port] in canonical spelling. RESIDUE, correspondence + oracle only: a remote whose hostinfo keeps a
+     non-canonical spelling from the URI (leading zeros in the port, empty user info), and network locations with non-ASCII
+     characters (NFKC / Unicode lower-casing are outside the model). *)
+Theorem C16_uri_options_uri : forall ip uri s hi uh p q, valid_str uri = true ->
+  set_request_uri ip uri true = Ok (DRequest s hi uh p q) ->
+  existsb (beqb s) coap_schemes = true /\ p <> [[]] /\ q <> [[]] /\ forallb valid_str p = true /\ forallb valid_str q = true /\
+  match uh with
+  | Some h =>
+      h <> [] /\ valid_str h = true /\ Forall not_upper h /\
+      (ip (strip_brackets h) = IpBad -> is_ipv4_literal h = Ok false ->
+       exists u' e h0 port, hostportsplit hi = Ok (h0, port) /\ get_request_uri ip (opts_of (DRequest s hi uh p q)) = Ok u' /\
+         quote quote_for_host_chars h = Ok e /\
+         set_request_uri ip u' true = Ok (DRequest s (e ++ port_text port) (Some h) p q))
+  | None =>
+      (forall t p0, hi = 91 :: t ++ 93 :: port_text p0 -> ip6_text_ok ip t -> port_ok p0 ->
+         exists u', get_request_uri ip (opts_of (DRequest s hi None p q)) = Ok u' /\
+                    set_request_uri ip u' true = Ok (DRequest s hi None p q)) /\
+      (forall h0 p0, hi = h0 ++ port_text p0 -> regular_host h0 = true -> is_ipv4_literal h0 = Ok true -> port_ok p0 ->
+         exists u', get_request_uri ip (opts_of (DRequest s hi None p q)) = Ok u' /\
+                    set_request_uri ip u' true = Ok (DRequest s hi None p q))
+  end.
+Proof. exact uri_options_uri. Qed.
+Print Assumptions C16_uri_options_uri.
+(* the input of the repaired finding 76b5301: coap://a%2Fb/ <-> Uri-Host "a/b" *)
+Theorem C16_repaired_host_escaping :
   let u := coap ++ [58; 47; 47; 97; 37; 50; 70; 98; 47] in
-  exists d u' d', set_request_uri no_ip u true = Ok d /\ get_request_uri (opts_of d) = Ok u' /\
-                  set_request_uri no_ip u' true = Ok d' /\ d <> d'.
-Proof. exact host_not_escaped_refuted. Qed.
-Print Assumptions C16_compose_decompose_refuted.
+  let d := DRequest coap [97; 37; 50; 70; 98] (Some [97; 47; 98]) [] [] in
+  set_request_uri no_ip u true = Ok d /\ get_request_uri no_ip (opts_of d) = Ok u.
+Proof. exact host_escaped_now. Qed.
+Print Assumptions C16_repaired_host_escaping.
 
 (* ---- 6.4 host rules on every accepted URI; foreign schemes *)
 Theorem C16_host_rules : forall ip uri flag s hi uh p q, set_request_uri ip uri flag = Ok (DRequest s hi uh p q) ->
@@ -102,7 +155,7 @@ Theorem C16_host_rules : forall ip uri flag s hi uh p q, set_request_uri ip uri 
 Proof. exact host_rules. Qed.
 Print Assumptions C16_host_rules.
 Theorem C16_proxy_roundtrip : forall ip uri flag u, set_request_uri ip uri flag = Ok (DProxy u) ->
-  u = uri /\ get_request_uri (opts_of (DProxy u)) = Ok uri.
+  u = uri /\ get_request_uri ip (opts_of (DProxy u)) = Ok uri.
 Proof. exact proxy_roundtrip. Qed.
 Print Assumptions C16_proxy_roundtrip.
 
@@ -150,7 +203,7 @@ Example C16_nonvacuous_roundtrip :
               o_proxy_uri := None; o_proxy_scheme := None |} in
   regular_host [101; 120; 46; 111; 114; 103] = true /\ is_ipv4_literal [101; 120; 46; 111; 114; 103] = Ok false /\
   hostportsplit (r_hostinfo m) = Ok (Some [104], Some 80) /\
-  exists u, get_request_uri m = Ok u /\
+  exists u, get_request_uri only_loopback m = Ok u /\
     set_request_uri only_loopback u true =
       Ok (DRequest coap ([101; 120; 46; 111; 114; 103] ++ port_text (Some 61616)) (Some [101; 120; 46; 111; 114; 103]) (o_uri_path m) (o_uri_query m)).
 Proof. cbv zeta. split; [reflexivity|]. split; [reflexivity|]. split; [vm_compute; reflexivity|].
@@ -171,6 +224,19 @@ Example C16_nonvacuous_hostport :
   set_request_uri only_loopback (coap ++ [58; 47; 47; 91; 58; 58; 49; 93; 58; 48; 56; 48; 47; 120]) true =
     Ok (DRequest coap [91; 58; 58; 49; 93; 58; 56; 48] None [[120]] []).
 Proof. cbv zeta. repeat split; vm_compute; reflexivity. Qed.
+Example C16_nonvacuous_ip6 :
+  (* only_loopback's "::1" is a text as ipaddress prints it; coap://[::1]:80/x is a fixed point; Uri-Host with reserved and non-ASCII characters *)
+  ip6_text_ok only_loopback [58; 58; 49] /\
+  (let h := [97; 47; 98; 37; 228; 58] in  (* "a/b%ä:" *)
+   h <> [] /\ valid_str h = true /\ Forall not_upper h /\ only_loopback (strip_brackets h) = IpBad /\ is_ipv4_literal h = Ok false /\
+   quote quote_for_host_chars h = Ok [97; 37;50;70; 98; 37;50;53; 37;67;51;37;65;52; 37;51;65]).
+Proof.
+  split.
+  - unfold ip6_text_ok. split; [reflexivity|]. split; [reflexivity|]. split; [reflexivity|]. split; [reflexivity|]. split; [reflexivity|].
+    repeat (apply Forall_cons; [reflexivity|]). apply Forall_nil.
+  - cbv zeta. split; [discriminate|]. split; [reflexivity|]. split; [repeat (apply Forall_cons; [reflexivity|]); apply Forall_nil|].
+    split; [reflexivity|]. split; vm_compute; reflexivity.
+Qed.
 Example C16_nonvacuous_rejections :
   set_request_uri no_ip [47; 47; 104; 47] true = Raise IncompleteUrlError /\                       (* //h/ *)
   set_request_uri no_ip (coap ++ [58; 47; 47; 104; 47; 35; 102]) true = Raise MalformedUrlError /\  (* coap://h/#f *)
